@@ -92,6 +92,31 @@ pub fn check(c: &Case) -> CheckResult {
         );
     }
     vensure!(s.winner_len() as u32 == flagged && flagged >= 1, "winner-len", "{}: winner_len() = {}, {} players flagged", ctx_s(), s.winner_len(), flagged);
+    // call history on the same board: rejected calls (a hole card of some seat replaced by a board
+    // card, first or second card) in between must not influence an identical valid call afterwards
+    let snapshot = |s: &Showdown| -> Vec<(u16, bool, Vec<u8>)> { s.players().iter().map(|p| (p.hand().power_index(), p.is_winner(), p.cards().iter().map(cid_of).collect())).collect() };
+    let first = snapshot(&s);
+    let seat = (board[0] as usize + board[4] as usize) % holes.len();
+    for which in 0..2u8 {
+        let mut bad = holes.clone();
+        let bc = board[(which as usize * 3 + seat) % 5];
+        if which == 0 {
+            bad[seat].0 = bc;
+        } else {
+            bad[seat].1 = bc;
+        }
+        // keep the pair's internal order as CardPair::new will sort it: exercise both positions
+        let r = Showdown::new(bad.iter().map(|h| e_pair(h.0, h.1)).collect(), eb, c.prob);
+        vensure!(r.is_none(), "collision-produces-showdown", "{}: seat {} holds the board card {} but a showdown was produced", ctx_s(), seat, cname(bc));
+        let again = Showdown::new(holes.iter().map(|h| e_pair(h.0, h.1)).collect(), eb, c.prob);
+        match again {
+            Some(a) => {
+                let snap = snapshot(&a);
+                vensure!(snap == first, "history-dependent-showdown", "{}: the same call gives a different result after a rejected call on the same board (seat {} given the board card {}): first {:?}, then {:?}", ctx_s(), seat, cname(bc), first.iter().map(|x| (x.0, x.1)).collect::<Vec<_>>(), snap.iter().map(|x| (x.0, x.1)).collect::<Vec<_>>());
+            }
+            None => return Err(Fail::new("history-dependent-showdown", format!("{}: a valid call returns None after a rejected call on the same board (seat {} given the board card {})", ctx_s(), seat, cname(bc)))),
+        }
+    }
     let n = holes.len() as u32;
     let cls = match flagged {
         1 => 1,
@@ -163,7 +188,7 @@ fn weight() -> impl Strategy<Value = f32> {
 }
 
 pub fn run(ctx: &mut Ctx) {
-    ctx.rule = "proptest: boards = first five cards of category-targeted sets (board-plays straights/flushes/full houses/quads, paired boards, near misses, uniform); 1..=10 players (thorough: up to 23) with uniform, mirrored (same ranks, other suits), rank-sharing hole cards; 8% of cases inject a board collision. Oracle: Some/None, players in input order, cards(), hand == evaluation of own seven cards, is_winner <=> reference class (best of 21) equals the table minimum, winner_len == flagged >= 1, probability bit-identical. Non-trivial = >= 2 winners or >= 3 players; distinct by (board, hole cards).".into();
+    ctx.rule = "proptest: boards = first five cards of category-targeted sets (board-plays straights/flushes/full houses/quads, paired boards, near misses, uniform); 1..=10 players (thorough: up to 23) with uniform, mirrored (same ranks, other suits), rank-sharing hole cards; 8% of cases inject a board collision. Oracle: Some/None, players in input order, cards(), hand == evaluation of own seven cards, is_winner <=> reference class (best of 21) equals the table minimum, winner_len == flagged >= 1, probability bit-identical; call history: two rejected calls on the same board (a seat's first resp. second hole card replaced by a board card) followed each time by the identical valid call, which must give the identical result. Non-trivial = >= 2 winners or >= 3 players; distinct by (board, hole cards).".into();
     ctx.assumptions = vec!["'no other player beats' is decided by the harness's reference classifier (C01's oracle), so a wrong evaluation also shows up here".into()];
     let cases = ctx.tier.pick(1_500_000, 40_000_000);
     ctx.run_random_brief(StreamCfg::new("tables_up_to_10", CLASSES, cases), || strategy(10), check, brief);
